@@ -1981,6 +1981,9 @@ class StridedInterval:
             if shift_amount.upper_bound >= 0:
                 return (0, self.bits)
             return (self.bits, self.bits)
+        if shift_amount.lower_bound > shift_amount.upper_bound:
+            # the amounts wrap around 2^bits - 1: both small and huge distances are possible
+            return (0, self.bits)
         return (round(self.bits, shift_amount.lower_bound), round(self.bits, shift_amount.upper_bound))
 
     @reversed_processor
